@@ -6,8 +6,10 @@ import (
 	"encoding/json"
 	"errors"
 	"fmt"
+	"os"
 	"sort"
 	"strings"
+	"time"
 
 	"golang.org/x/mod/module"
 	"golang.org/x/mod/sumdb/tlog"
@@ -733,9 +735,13 @@ func Run(r *fw.Run) {
 		c := scs[i]
 		x := newCtx(c.N)
 		l := fw.NewLocal()
+		t0 := time.Now()
 		x.explore(r, l, c, 1, false)
 		if c.N <= dev2N && len(c.Lookups) == 1 {
 			x.explore(r, l, c, 2, true)
+		}
+		if os.Getenv("VERIF_DEBUG") != "" {
+			fmt.Fprintf(os.Stderr, "[c01] %.2fs execs=%d %s\n", time.Since(t0).Seconds(), l.Execs, c.key())
 		}
 		r.Merge(l)
 	})
